@@ -762,8 +762,15 @@ pub fn orswot_overtake(out: &mut String, rng: &mut Rng, cases: usize) {
             rms.push(id);
             id += 1;
         }
-        // late replicas: removes first (random subsets, random order), maybe some adds in actor order
+        // late replicas: maybe a strict PREFIX of the adds first (they then hold members while a remove whose context reaches further
+        // is still pending), then removes (random subsets, random order)
         for r in 2..n {
+            if adds.len() > 1 && rng.chance(1, 2) {
+                let k = 1 + rng.below(adds.len() - 1);
+                for a in adds.iter().take(k) {
+                    writeln!(out, "D {} o{}", r, a).unwrap();
+                }
+            }
             let mut order = rms.clone();
             for i in (1..order.len()).rev() {
                 order.swap(i, rng.below(i + 1));
@@ -854,6 +861,12 @@ pub fn map_overtake(out: &mut String, rng: &mut Rng, cases: usize) {
             id += 1;
         }
         for r in 2..n {
+            if ups.len() > 1 && rng.chance(1, 2) {
+                let k = 1 + rng.below(ups.len() - 1);
+                for a in ups.iter().take(k) {
+                    writeln!(out, "D {} o{}", r, a).unwrap();
+                }
+            }
             let mut order = rms.clone();
             for i in (1..order.len()).rev() {
                 order.swap(i, rng.below(i + 1));
